@@ -549,6 +549,12 @@ fn run_inner(op: &str, a: &Args) -> Option<Args> {
             if op == "c02.build" { Some(vec![enc_col(&read_lv(arr.as_ref(), (h.get(4).copied().unwrap_or(0)) as usize)?)]) }
             else { let mut out = Args::new(); c09::encode(&from_data(&arr.to_data())?, &mut out); Some(out) }
         }
+        // builder call SEQUENCES: [kind; w; large; utf8; mode; block; dedup] ([step; src; pre] [column])* -> column read back
+        "c02.buildseq" => {
+            let steps: Vec<(Vec<i64>, Vec<LV>)> = a[1..].chunks(2).filter(|c| c.len() == 2).map(|c| (to_i64s(&c[0]), dec_col(&c[1]))).collect();
+            let arr = build_sequence(&h, &steps)?;
+            Some(vec![enc_col(&read_lv(arr.as_ref(), h[4] as usize)?)])
+        }
         // [k; fl; nreal; nin; npar; paths...] params tree*(nreal*nin) -> outcome per realisation
         "c02.congr" => {
             let (k, fl, nreal, nin, npar) = (h[0] as usize, h[1] as usize, h[2] as usize, h[3] as usize, h[4] as usize);
@@ -597,6 +603,85 @@ fn run_inner(op: &str, a: &Args) -> Option<Args> {
         }
         _ => None,
     }
+}
+
+/// One builder, a SEQUENCE of calls, then finish.  Steps: 0 element-wise append_value / append_option / append_null,
+/// 1 append_array of a source array (src 0: made by a default builder, 1: made with tiny data blocks / sliced out
+/// of a longer array, `pre` leading elements cut off), 2 extend(iterator of Option), 3 bulk append_values / append_nulls.
+/// kind 0 prim (w, unsigned, float), 1 bool, 2 bin (large, utf8), 3 fixedbin (w), 4 view (utf8; block size, dedup).
+fn build_sequence(h: &[i64], steps: &[(Vec<i64>, Vec<LV>)]) -> Option<ArrayRef> {
+    fn u(z: &BigInt) -> u128 { u128::try_from(z).unwrap() }
+    let (kind, w, large, utf8) = (h[0], h[1] as usize, h[2] != 0, h[3] != 0);
+    // the source column of an append_array step: `pre` leading elements (taken from the column itself) are sliced away
+    let with_pre = |st: &[i64], col: &[LV]| -> (Vec<LV>, usize) { let k = if st[1] == 1 && !col.is_empty() { (st[2] as usize).min(col.len()) } else { 0 }; let mut v: Vec<LV> = col[..k].to_vec(); v.extend(col.iter().cloned()); (v, k) };
+    Some(match kind {
+        0 => {
+            macro_rules! pb { ($t:ty, $conv:expr) => {{
+                let fill = |b: &mut PrimitiveBuilder<$t>, col: &[LV]| { for (i, v) in col.iter().enumerate() { match v { LV::Int(z) => if i % 2 == 0 { b.append_value($conv(u(z))) } else { b.append_option(Some($conv(u(z)))) }, _ => if i % 3 == 0 { b.append_option(None) } else { b.append_null() } } } };
+                let mut b = PrimitiveBuilder::<$t>::new();
+                for (st, col) in steps { match st[0] {
+                    1 => { let (src, k) = with_pre(st, col); let mut sb = PrimitiveBuilder::<$t>::new(); fill(&mut sb, &src); b.append_array(&sb.finish().slice(k, col.len())) }
+                    2 => b.extend(col.iter().map(|v| match v { LV::Int(z) => Some($conv(u(z))), _ => None })),
+                    3 => { if col.iter().all(|v| *v == LV::Null) { b.append_nulls(col.len()) } else if col.iter().all(|v| *v != LV::Null) { b.append_slice(&col.iter().map(|v| match v { LV::Int(z) => $conv(u(z)), _ => Default::default() }).collect::<Vec<_>>()) }
+                           else { b.append_values(&col.iter().map(|v| match v { LV::Int(z) => $conv(u(z)), _ => Default::default() }).collect::<Vec<_>>(), &col.iter().map(|v| *v != LV::Null).collect::<Vec<bool>>()) } }
+                    _ => fill(&mut b, col),
+                } }
+                Arc::new(b.finish()) as ArrayRef }} }
+            match (w, large, utf8) {
+                (1, true, _) => pb!(UInt8Type, |x: u128| x as u8), (2, false, false) => pb!(Int16Type, |x: u128| x as u16 as i16), (4, false, false) => pb!(Int32Type, |x: u128| x as u32 as i32),
+                (8, false, false) => pb!(Int64Type, |x: u128| x as u64 as i64), (8, false, true) => pb!(Float64Type, |x: u128| f64::from_bits(x as u64)), (16, _, _) => pb!(Decimal128Type, |x: u128| x as i128), _ => return None }
+        }
+        1 => {
+            let fill = |b: &mut BooleanBuilder, col: &[LV]| { for (i, v) in col.iter().enumerate() { match v { LV::Bool(x) => if i % 2 == 0 { b.append_value(*x) } else { b.append_option(Some(*x)) }, _ => b.append_null() } } };
+            let mut b = BooleanBuilder::new();
+            for (st, col) in steps { match st[0] {
+                1 => { let (src, k) = with_pre(st, col); let mut sb = BooleanBuilder::new(); fill(&mut sb, &src); b.append_array(&sb.finish().slice(k, col.len())) }
+                2 => b.extend(col.iter().map(|v| match v { LV::Bool(x) => Some(*x), _ => None })),
+                3 => { if col.iter().all(|v| *v == LV::Null) { b.append_nulls(col.len()) } else if col.iter().all(|v| *v != LV::Null) { b.append_slice(&col.iter().map(|v| matches!(v, LV::Bool(true))).collect::<Vec<bool>>()) }
+                       else { b.append_values(&col.iter().map(|v| matches!(v, LV::Bool(true))).collect::<Vec<bool>>(), &col.iter().map(|v| *v != LV::Null).collect::<Vec<bool>>()).ok()? } }
+                _ => fill(&mut b, col),
+            } }
+            Arc::new(b.finish())
+        }
+        2 => {
+            macro_rules! bb { ($b:ty, $conv:expr) => {{
+                let fill = |b: &mut $b, col: &[LV]| { for (i, v) in col.iter().enumerate() { match v { LV::Bytes(x) => if i % 2 == 0 { b.append_value($conv(x)) } else { b.append_option(Some($conv(x))) }, _ => b.append_null() } } };
+                let mut b = <$b>::new();
+                for (st, col) in steps { match st[0] {
+                    1 => { let (src, k) = with_pre(st, col); let mut sb = <$b>::new(); fill(&mut sb, &src); b.append_array(&sb.finish().slice(k, col.len())).ok()? }
+                    2 => b.extend(col.iter().map(|v| match v { LV::Bytes(x) => Some($conv(x)), _ => None })),
+                    3 => { if col.iter().all(|v| *v == LV::Null) { b.append_nulls(col.len()) } else { fill(&mut b, col) } }
+                    _ => fill(&mut b, col),
+                } }
+                Arc::new(b.finish()) as ArrayRef }} }
+            match (large, utf8) { (false, false) => bb!(BinaryBuilder, |x: &Vec<u8>| x.clone()), (true, false) => bb!(LargeBinaryBuilder, |x: &Vec<u8>| x.clone()),
+                (false, true) => bb!(StringBuilder, |x: &Vec<u8>| String::from_utf8(x.clone()).unwrap()), (true, true) => bb!(LargeStringBuilder, |x: &Vec<u8>| String::from_utf8(x.clone()).unwrap()) }
+        }
+        3 => {
+            let fill = |b: &mut FixedSizeBinaryBuilder, col: &[LV]| -> Option<()> { for v in col { match v { LV::Bytes(x) => b.append_value(x).ok()?, _ => b.append_null() } } Some(()) };
+            let mut b = FixedSizeBinaryBuilder::new(w as i32);
+            for (st, col) in steps { match st[0] {
+                1 => { let (src, k) = with_pre(st, col); let mut sb = FixedSizeBinaryBuilder::new(w as i32); fill(&mut sb, &src)?; b.append_array(&sb.finish().slice(k, col.len())).ok()? }
+                3 if col.iter().all(|v| *v == LV::Null) => b.append_nulls(col.len()),
+                _ => fill(&mut b, col)?,
+            } }
+            Arc::new(b.finish())
+        }
+        4 => {
+            macro_rules! vb { ($b:ty, $conv:expr) => {{
+                let fill = |b: &mut $b, col: &[LV]| { for (i, v) in col.iter().enumerate() { match v { LV::Bytes(x) => if i % 2 == 0 { b.append_value($conv(x)) } else { b.append_option(Some($conv(x))) }, _ => b.append_null() } } };
+                let mut b = <$b>::new(); if h[5] > 0 { b = b.with_fixed_block_size(h[5] as u32) } if h[6] != 0 { b = b.with_deduplicate_strings() }
+                for (st, col) in steps { match st[0] {
+                    // the appended array carries its own data buffers: one (default builder) or many (16-byte blocks), possibly sliced
+                    1 => { let (src, k) = with_pre(st, col); let mut sb = <$b>::new(); if st[1] == 1 { sb = sb.with_fixed_block_size(16) } fill(&mut sb, &src); b.append_array(&sb.finish().slice(k, col.len())) }
+                    2 => b.extend(col.iter().map(|v| match v { LV::Bytes(x) => Some($conv(x)), _ => None })),
+                    _ => fill(&mut b, col),
+                } }
+                Arc::new(b.finish()) as ArrayRef }} }
+            if utf8 { vb!(StringViewBuilder, |x: &Vec<u8>| String::from_utf8(x.clone()).unwrap()) } else { vb!(BinaryViewBuilder, |x: &Vec<u8>| x.clone()) }
+        }
+        _ => return None,
+    })
 }
 
 /// the real builders (append_value / append_null / append_option), kind 0 prim (w = width, large = unsigned, utf8 = float), 1 bool, 2 bin, 3 fixedbin
@@ -1139,8 +1224,37 @@ pub fn generate(tier: &str, r: &mut Rng, emit: &mut dyn FnMut(Case)) {
         let Some(y2) = mk(r, l2) else { continue };
         emit_kernel_cases(r, &x, &y, &s, &x2, &y2, emit, 8);
     }
+    // builder call sequences (append_value.., append_array of arrays with their own buffers, extend, bulk forms), half of
+    // them on view builders; a view sequence starts, every second time, with a long (> 12 byte) value in the in-progress block
+    let nseq = if thorough { 2400 } else { 300 };
+    for it in 0..nseq {
+        let kind: i64 = if it % 2 == 0 { 4 } else { r.below(4) as i64 };
+        let (ty, w, large, utf8, fl): (Ty, usize, bool, bool, usize) = match kind {
+            0 => r.pick(&[(Ty::Fixed(1), 1usize, true, false, 1usize), (Ty::Fixed(2), 2, false, false, 0), (Ty::Fixed(4), 4, false, false, 0), (Ty::Fixed(8), 8, false, false, 0), (Ty::Fixed(8), 8, false, true, 2), (Ty::Fixed(16), 16, false, false, 0)]).clone(),
+            1 => (Ty::Bool, 0, false, false, 0),
+            2 => { let (l, u) = (r.bool(), r.bool()); (Ty::Bin { large: l, utf8: u }, 0, l, u, 0) }
+            3 => { let n = 1 + r.below(4); (Ty::FixedBin(n as i32), n, false, false, 0) }
+            _ => { let u = r.chance(2, 3); (Ty::View { utf8: u }, 0, false, u, 0) }
+        };
+        let block = if kind == 4 { *r.pick(&[0i64, 0, 0, 16, 40]) } else { 0 }; let dedup = (kind == 4 && r.chance(1, 5)) as i64;
+        let mode = r.below(5) as i64;
+        let mut args: Args = vec![gs(&[kind, w as i64, large as i64, utf8 as i64, mode, block, dedup])];
+        let nsteps = 1 + r.below(4); let mut shape = String::new();
+        for sidx in 0..nsteps {
+            let mut step = if kind == 4 && it % 4 == 0 { if sidx == 0 { 0 } else if sidx == 1 { 1 } else { r.below(4) } } else { r.below(4) } as i64;
+            if kind == 4 && step == 3 { step = 1 }
+            let len = if r.chance(1, 8) { 0 } else { 1 + r.below(7) }; let nullp = *r.pick(&[0, 0, 1, 2, 3]);
+            let mut col = gen_lv(r, &ty, fl, len, nullp);
+            if kind == 4 && it % 4 == 0 && sidx < 2 { // a long value on both sides of the append_array boundary
+                let long: Vec<u8> = format!("long-value-{}-{}-abcdefghijklmnopqrstuvwxyz", it, sidx).into_bytes()[..13 + r.below(20)].to_vec();
+                if col.is_empty() { col.push(LV::Bytes(long)) } else { let i = r.below(col.len()); col[i] = LV::Bytes(long) } }
+            args.push(gs(&[step, r.below(2) as i64, r.below(4) as i64])); args.push(enc_col(&col));
+            shape.push_str(&format!("{step}"));
+        }
+        emit(Case::new("c02.buildseq", args, &["c02.buildseq.spec"], format!("buildseq {} s{shape} b{block} d{dedup} m{mode}", ty_head(&ty))));
+    }
     // builders: readback and physical form
-    let nb = if thorough { 3000 } else { 400 };
+    let nb = if thorough { 2700 } else { 300 };
     for _ in 0..nb {
         let kind = r.below(4) as i64;
         let (ty, w, large, utf8): (Ty, usize, bool, bool) = match kind {
